@@ -537,6 +537,11 @@ int __wrap_pthread_mutex_lock(pthread_mutex_t* m) {
     if (sim::tl_id < 0) {
         return __real_pthread_mutex_lock(m);
     }
+    // synchronisation operations are schedule points of their own: a switch right before a critical section is entered
+    // (or right after one is left, below) is what exposes check-then-act sequences split over several critical sections
+    if (sim::tl_nopreempt == 0) {
+        sim::yield_here(sim::K_OP);
+    }
     for (;;) {
         const int r = pthread_mutex_trylock(m);
         if (r != EBUSY) {
@@ -565,6 +570,9 @@ int __wrap_pthread_mutex_unlock(pthread_mutex_t* m) {
             if (sim::g_th[i].blocked_on == m) {
                 sim::g_th[i].blocked_on = nullptr;
             }
+        }
+        if (sim::tl_nopreempt == 0) {
+            sim::yield_here(sim::K_OP);
         }
     }
     return r;
